@@ -165,6 +165,11 @@ class Result:
         self.coverage = {}
         self.assumptions = []
         self.notes = []
+        # stale replays of earlier runs of this property would mislead: remove them
+        d = os.path.join(EVDIR, "replay")
+        if os.path.isdir(d):
+            for f in os.listdir(d):
+                if f.startswith(prop + "-"): os.unlink(os.path.join(d, f))
 
     def replay_path(self, tag):
         d = os.path.join(EVDIR, "replay")
@@ -309,7 +314,14 @@ def decide(res, prop, data, keyfn, corr_name, split=split_ms, describe=None):
             key = keyfn(ops[i], im, M, S)
             fails.setdefault(key, []).append(i)
         else:
-            drift.append(i)
+            # impl = spec ≠ model: inside a listed known-finding region the model is known not to mirror the code
+            k = keyfn(ops[i], im, M, S)
+            hit = next((kf for kf in known_open if key_matches(kf["key"], k)), None)
+            if hit:
+                w, c = res.known_hits.get(hit["key"], (hit["what"], 0))
+                res.known_hits[hit["key"]] = (w, c + 1)
+            else:
+                drift.append(i)
     cov = res.coverage
     cov["evaluations"] = len(ops)
     cov["traces_validated_against_impl"] = len(ops)
